@@ -6,7 +6,7 @@ inserted (several read plans per program, one of them 'read something after ever
 run from freshly constructed inputs and every event of P -- results of its own observing
 steps, exceptions, final contents of all variables -- is compared between the two logs."""
 import numpy as np
-from ..core import CTX, attempt, held, violated, short
+from ..core import CTX, attempt, held, violated, short, deep_same
 from .. import contracts, prog
 from . import c06
 
@@ -19,8 +19,9 @@ ANCHORS = ["raggedarray/base.py::RaggedBase.ravel", "raggedarray/base.py::Ragged
            "raggedarray/indexablearray.py::IndexableArray.__setitem__", "raggedarray/base.py::RaggedBase.size"]
 FLOOR_TAGS = ["class:A", "class:B", "plan:everything", "plan:random", "inserted-read-on-lazy", "inserted:meta", "inserted:repr", "inserted:tolist", "inserted:sel", "inserted:sum0",
               "inserted:ell", "inserted:row", "inserted:maskidx"]
-FLOOR_MONITORS = ["c10:pair", "purity-tap", "inv:ragged"]
+FLOOR_MONITORS = ["c10:pair", "purity-tap", "global-state", "inv:ragged"]
 N_RANDOM = {"quick": 3000, "thorough": 100000}
+GLOBAL_STATE_MONITOR = True     # reads must not leak into numpy's print options / error state either
 
 
 def setup(lib):
@@ -39,13 +40,14 @@ def make_plans(rng, steps, n_random=2):
     finalM, _ = prog.run_model(steps)
     born = created_at(steps)
     plans = []
+    read_ops = prog.FLOAT_READS if steps[0].get("dtype", "int64") == "float64" else prog.READ_OPS
 
     def one_read(si):
         vs = [v for v, b in born.items() if b <= si]
         v = rng.choice(vs[-3:]) if rng.random() < 0.6 else rng.choice(vs)
         rows = finalM[v]
         for _ in range(10):
-            nm = rng.choice(prog.READ_OPS)
+            nm = rng.choice(read_ops)
             if prog.obs_applicable(nm, rows):
                 return [v, nm, prog.obs_arg(rng, nm, rows)]
         return [v, "tolist", None]
@@ -97,11 +99,11 @@ def run(case):
             si, what, changed = breaches[0]
             return violated("the read-only operation %s (after step %d) changed the content of %s\n%s\n%s" % (what, si, changed, pdesc, plan_desc), tags + ["purity"])
         for v in finalA:
-            if finalA[v] != finalB.get(v):
+            if not deep_same(finalA[v], finalB.get(v)):
                 return violated("variable %s ends as %s without and as %s with the inserted reads\n%s\n%s" % (v, short(finalA[v], 200), short(finalB.get(v), 200), pdesc, plan_desc),
                                 tags + ["final-differs"], got=finalB.get(v), expected=finalA[v])
         for (si, a), (_, b) in zip(obsA, obsB):
-            if c06.norm(a) != c06.norm(b):
+            if not deep_same(c06.norm(a), c06.norm(b)):
                 st = steps[si]
                 return violated("step %d, %s(%s) gives %s without and %s with the inserted reads\n%s\n%s" % (si, st["what"], st["u"], short(a, 200), short(b, 200), pdesc, plan_desc),
                                 tags + ["obs-differs:" + st["what"]], got=b, expected=a)
@@ -163,14 +165,41 @@ def directed():
                      {"op": "obs", "u": "a2", "what": "tolist", "arg": None}, {"op": "obs", "u": "a1", "what": "meta", "arg": None}]
             for rd in ["tolist", "repr", "meta", "sum1", "ell", "row"]:
                 yield {"steps": steps, "hazard": False, "plans": [{"kind": "everything", "reads": {"1": [["a1", rd, 0 if rd == "row" else None]]}}, {"kind": "random", "reads": {"2": [["a1", rd, 0 if rd == "row" else None]]}}]}
+    # an integer column (also <= -2) read from an unmaterialised stepped column view, with and without an earlier look at the view
+    wide = [[1, 2, 3, 4, 5, 6, 7], [8, 9, 10, 11], [12, 13, 14, 15, 16, 17]]
+    for first in [(slice(None), slice(None, None, 2), True), (slice(None), slice(None, None, -1), True), (slice(None), slice(1, None, 3), True), ([2, 0], slice(None, None, -2), True)]:
+        rows1 = prog.m_sel(wide, *first)[1]
+        ml = min(len(r) for r in rows1)
+        for j in range(-ml, ml):
+            steps = [{"op": "init", "v": "a0", "rows": wide}, {"op": "sel", "v": "a1", "u": "a0", "rs": first[0], "cs": first[1], "has_cs": first[2]},
+                     {"op": "obs", "u": "a1", "what": "sel", "arg": [slice(None), j, True]}, {"op": "obs", "u": "a1", "what": "rowscol", "arg": [list(range(len(rows1))), j]},
+                     {"op": "obs", "u": "a1", "what": "getcol", "arg": j % ml}]
+            yield {"steps": steps, "hazard": False, "plans": [{"kind": "everything", "reads": {"1": [["a1", "tolist", None]]}}, {"kind": "random", "reads": {"1": [["a1", "meta", None]], "2": [["a1", "repr", None]]}}]}
+    # printing a large array (more than 100 cells, more than 20 rows), then printing something wide
+    bigrows = [[(7 * i + j) % 50 + 100000 for j in range(12)] for i in range(25)]
+    for rd in ("repr", "str", "tolist"):
+        steps = [{"op": "init", "v": "a0", "rows": bigrows}, {"op": "sel", "v": "a1", "u": "a0", "rs": slice(None, None, 2), "cs": None, "has_cs": False},
+                 {"op": "obs", "u": "a1", "what": "repr", "arg": None}, {"op": "obs", "u": "a0", "what": "str", "arg": None}, {"op": "obs", "u": "a1", "what": "row", "arg": 0}]
+        yield {"steps": steps, "hazard": False, "plans": [{"kind": "everything", "reads": {"0": [["a0", rd, None]], "1": [["a1", rd, None]]}}, {"kind": "random", "reads": {"1": [["a0", "repr", None]]}}]}
+    # a float column combined with arrays that share their geometry with an array that was reduced / read before
+    F = [[0.1, 0.7], [1e17, 1.0, 0.3], [float("inf"), 2.0], [0.3, 0.1, 0.7, 1.0]]
+    col = [0.1, float("nan"), 1e17, 0.7]
+    for rd in ("sum1", "any1", "npsum1", "tolist", "sumall", "max1", "meta"):
+        steps = [{"op": "init", "v": "a0", "rows": F, "dtype": "float64"}, {"op": "neg", "v": "a1", "u": "a0"}, {"op": "ufcol", "v": "a2", "u": "a1", "col": col, "side": "R"},
+                 {"op": "ufcol", "v": "a3", "u": "a0", "col": col, "side": "L"}, {"op": "obs", "u": "a2", "what": "tolist", "arg": None}, {"op": "obs", "u": "a3", "what": "tolist", "arg": None}]
+        yield {"steps": steps, "hazard": False, "plans": [{"kind": "everything", "reads": {"0": [["a0", rd, None]], "1": [["a1", rd, None]]}}, {"kind": "random", "reads": {"1": [["a1", rd, None]]}}]}
     for _ in range(250):
         yield with_plans(rng, prog.gen_program(rng, "quick"))
+    for _ in range(120):
+        yield with_plans(rng, prog.gen_program(rng, "quick", dtype="float64"))
+    for _ in range(25):
+        yield with_plans(rng, prog.gen_program(rng, "quick", big=True))
     for _ in range(40):
         yield with_plans(rng, prog.gen_program(rng, "quick", allow_hazard=True))
 
 
 def random_case(rng, tier):
-    return with_plans(rng, prog.gen_program(rng, tier, allow_hazard=rng.random() < 0.05), 2 if tier == "quick" else 3)
+    return with_plans(rng, prog.gen_program(rng, tier, allow_hazard=rng.random() < 0.05, dtype="float64" if rng.random() < 0.3 else "int64", big=rng.random() < 0.08), 2 if tier == "quick" else 3)
 
 
 def classify(case, res):
